@@ -259,6 +259,9 @@ def run(tier, seed):
         for w2 in words:
             for sep in ("", " ", ", "):
                 dstr.append(w1 + sep + w2)
+    # every word of the dictionary on its own (each has its own one- or two-character code), and after "a " / before " a"
+    allw = [w for w in D.contents if "\\" not in w and "`" not in w]
+    dstr += allw + ["a " + w for w in allw[::1 if not quick else 7]] + [w + " a" for w in allw[::1 if not quick else 7]]
     dstr = list(dict.fromkeys(dstr))
     explore.pmap(_dict_shard, explore.chunks(dstr, 128), rep, seed)
     # cross-kind histories
@@ -286,7 +289,7 @@ def run(tier, seed):
     explore.pmap(_base_shard, [c for c in explore.chunks(work, 64)], rep, seed)
     rep.rule = ("number compression: all n in 1..%d plus {255^k+d, 10^k+d}; string compression: all strings of length <=%d over "
                 "[a-z ] not starting with a space plus boundary family; dictionary compression: all ASCII strings of length "
-                "<=2 (<=3 thorough) (no backslash/backquote), all w1 sep w2 over %d dictionary/boundary words x 3 separators; base conversion: "
+                "<=2 (<=3 thorough) (no backslash/backquote), all w1 sep w2 over %d dictionary/boundary words x 3 separators, every dictionary word on its own (and every [7th] word after 'a ' / before ' a'); base conversion: "
                 "all bases 2..300 x {0..%d} u {b^k+d}. Cross-kind histories (same body text as »..«..` literal, expected values computed independently) and mixed-codec histories (every order of 1523 numbers / 728 strings / dictionary strings + interleaved, each in a freshly forked process). Round trip through the real lexer/transpiler/exec. "
                 "Each input is distinct." % (N, L, len(words), 300 if not quick else 40))
     rep.sample({"n": 13, "compressed": "»" + "?" + "»"})
